@@ -81,7 +81,7 @@ Definition repo_enc_blob : bytes := hex_bytes
 
 Example repo_tx_parses_and_reencodes :
   match tx_decode repo_tx_bytes with
-  | Some t => tx_wf t && bytes_eqb (tx_encode t) repo_tx_bytes && uses_segwit t
+  | Some t => tx_wf t && cr_bytes_eqb (tx_encode t) repo_tx_bytes && uses_segwit t
   | None => false
   end = true.
 Proof. vm_compute. reflexivity. Qed.
@@ -100,39 +100,39 @@ Example repo_display_order_is_not_the_key :
 Proof. vm_compute. reflexivity. Qed.
 
 Example repo_locator :
-  locator repo_txid_bytes = hex_bytes "b4a11e76c7115e2cd79526f3543e6bec".
+  cr_locator repo_txid_bytes = hex_bytes "b4a11e76c7115e2cd79526f3543e6bec".
 Proof. vm_compute. reflexivity. Qed.
 
 (* ---------- zbase32 (lightning-0.1.1 src/util/base32.rs tests) and the message-signing vector ---------- *)
 Example zbase32_vectors :
-  map zb_encode [[]; [0]; [128]; [139; 136; 128]; [240; 191; 199]; [212; 122; 4]; [245; 87; 187; 12]]
+  map crzb_encode [[]; [0]; [128]; [139; 136; 128]; [240; 191; 199]; [212; 122; 4]; [245; 87; 187; 12]]
   = map bytes_of_string [""; "yy"; "oy"; "tqrey"; "6n9hq"; "4t7ye"; "6im5sdy"] /\
-  map zb_decode (map bytes_of_string [""; "yy"; "oy"; "tqrey"; "6n9hq"; "4t7ye"; "6im5sdy"])
+  map crzb_decode (map bytes_of_string [""; "yy"; "oy"; "tqrey"; "6n9hq"; "4t7ye"; "6im5sdy"])
   = map (@Some bytes) [[]; [0]; [128]; [139; 136; 128]; [240; 191; 199]; [212; 122; 4]; [245; 87; 187; 12]].
 Proof. split; vm_compute; reflexivity. Qed.
 
 Example zbase32_alphabet_vector :
-  zb_encode (hex_bytes "00443214c74254b635cf84653a56d7c675be77df") = bytes_of_string "ybndrfg8ejkmcpqxot1uwisza345h769" /\
-  zb_decode (bytes_of_string "ybndrfg8ejkmcpqxot1uwisza345h769") = Some (hex_bytes "00443214c74254b635cf84653a56d7c675be77df").
+  crzb_encode (hex_bytes "00443214c74254b635cf84653a56d7c675be77df") = bytes_of_string "ybndrfg8ejkmcpqxot1uwisza345h769" /\
+  crzb_decode (bytes_of_string "ybndrfg8ejkmcpqxot1uwisza345h769") = Some (hex_bytes "00443214c74254b635cf84653a56d7c675be77df").
 Proof. split; vm_compute; reflexivity. Qed.
 
 (* decoding ignores the case of letters (to_ascii_uppercase before the table look-up) *)
 Example zbase32_decode_is_case_insensitive :
-  zb_decode (bytes_of_string "TQREY") = Some [139; 136; 128] /\ zb_decode (bytes_of_string "tQrEy") = Some [139; 136; 128].
+  crzb_decode (bytes_of_string "TQREY") = Some [139; 136; 128] /\ crzb_decode (bytes_of_string "tQrEy") = Some [139; 136; 128].
 Proof. split; vm_compute; reflexivity. Qed.
 
 Example zbase32_rejects :
-  zb_decode (bytes_of_string "y") = None /\          (* length 1 mod 8 *)
-  zb_decode (bytes_of_string "yb") = None /\         (* non-zero bits beyond the data *)
-  zb_decode (bytes_of_string "l0") = None /\         (* 'l' and '0' are not in the alphabet *)
-  zb_decode (bytes_of_string "y2") = None /\ zb_decode (bytes_of_string "yv") = None.
+  crzb_decode (bytes_of_string "y") = None /\          (* length 1 mod 8 *)
+  crzb_decode (bytes_of_string "yb") = None /\         (* non-zero bits beyond the data *)
+  crzb_decode (bytes_of_string "l0") = None /\         (* 'l' and '0' are not in the alphabet *)
+  crzb_decode (bytes_of_string "y2") = None /\ crzb_decode (bytes_of_string "yv") = None.
 Proof. repeat split; vm_compute; reflexivity. Qed.
 
 (* lightning message_signing test_sign: the signature text decodes to 65 bytes, recovery id 0..3 *)
 Example ln_signature_container :
-  match sig_decode (bytes_of_string "d9tibmnic9t5y41hg7hkakdcra94akas9ku3rmmj4ag9mritc8ok4p5qzefs78c9pqfhpuftqqzhydbdwfg7u6w6wdxcqpqn4sj4e73e") with
+  match lnsig_decode (bytes_of_string "d9tibmnic9t5y41hg7hkakdcra94akas9ku3rmmj4ag9mritc8ok4p5qzefs78c9pqfhpuftqqzhydbdwfg7u6w6wdxcqpqn4sj4e73e") with
   | Some (rid, compact) => (rid <? 4)%N && Nat.eqb (length compact) 64 &&
-      bytes_eqb (sig_encode rid compact)
+      cr_bytes_eqb (lnsig_encode rid compact)
         (bytes_of_string "d9tibmnic9t5y41hg7hkakdcra94akas9ku3rmmj4ag9mritc8ok4p5qzefs78c9pqfhpuftqqzhydbdwfg7u6w6wdxcqpqn4sj4e73e")
   | None => false
   end = true.
